@@ -353,3 +353,37 @@ def same_on_all_paths(ctx):
         stored = {dotted(s.targets[0])[5:] for s in walk_func(fn) if isinstance(s, ast.Assign) and (dotted(s.targets[0]) or "").startswith("self.")}
         ctx.check({"lineno", "pos", "filename", "source"} <= stored, "exception-fields:" + cls, db.where(fn), "%s stores %s" % (cls, sorted(stored)), "stores lineno, pos, filename, source")
         ctx.check(P.has(fn, "_format_filepos(%s, %s, %s)" % (pn(fn, 3), pn(fn, 4), pn(fn, 5))), "exception-message:" + cls, db.where(fn), "%s message does not name file and line" % cls, "message names file, line, column")
+
+
+@rule("C11.fragment-unknown-keyword", primary=False, min_instances=1, props=["C01"])
+def fragment_unknown_keyword(ctx):
+    """a control line whose keyword PythonFragment cannot complete raises CompileException: the 'not found' answer of the keyword dispatch is the one that is tested"""
+    db = ctx.db
+    pf = db.func("ast.PythonFragment.__init__")
+    fns = db.with_helpers(pf)
+    gets = []
+    for g in fns:
+        for a in walk_func(g):
+            if isinstance(a, ast.Assign) and len(a.targets) == 1 and isinstance(a.targets[0], ast.Name) and isinstance(a.value, ast.Call) and isinstance(a.value.func, ast.Attribute) and a.value.func.attr == "get" and 1 <= len(a.value.args) <= 2:
+                gets.append((g, a))
+    raises = [r for g in fns for r in walk_func(g) if isinstance(r, ast.Raise) and isinstance(r.exc, ast.Call) and (dotted(r.exc.func) or "").endswith("CompileException") and "nsupported" in src(r.exc)]
+    ctx.require(raises, "PythonFragment.__init__: the 'Unsupported control keyword' exception was not found (anchor)")
+    if not gets:
+        # an if/elif chain (or a subscript under try/except KeyError): the raise is its last alternative
+        ctx.ok("unknown-raises", db.where(raises[0]), "unknown keywords fall to the raising alternative")
+        return
+    for g, a in gets:
+        v = a.targets[0].id
+        dflt = a.value.args[1] if len(a.value.args) == 2 else ast.Constant(value=None)
+        tests = [i for i in walk_func(g) if isinstance(i, ast.If) and isinstance(i.test, ast.Compare) and len(i.test.ops) == 1 and isinstance(i.test.ops[0], (ast.Is, ast.IsNot, ast.Eq, ast.NotEq))
+                 and isinstance(i.test.left, ast.Name) and i.test.left.id == v]
+        truthy = [i for i in walk_func(g) if isinstance(i, ast.If) and ((isinstance(i.test, ast.Name) and i.test.id == v) or (isinstance(i.test, ast.UnaryOp) and isinstance(i.test.operand, ast.Name) and i.test.operand.id == v))]
+        if not tests and not truthy:
+            continue
+        for i in tests:
+            same = ast.dump(i.test.comparators[0]) == ast.dump(dflt)
+            ctx.check(same, "unknown-raises", db.where(i),
+                      "the keyword table answers `%s` for an unknown keyword but the result is tested against `%s`: the test never fires, an unsupported control keyword is taken apart like a table row and a raw TypeError / ValueError leaves the lexer instead of CompileException" % (src(dflt), src(i.test.comparators[0])),
+                      "the default of the look-up is what the test compares with")
+        for i in truthy:
+            ctx.ok("unknown-raises", db.where(i), "result tested for truth (rows are non-empty tuples / strings)")
